@@ -806,8 +806,12 @@ class World:
             n = len(a.obj) + (1 if step[3] % 5 == 0 else 0)
             val = self.vals(step, n)
             si.info["ragged"] = n != len(a.obj)
+            if step[3] % 4 == 1:
+                si.info["value"] = list(val)
+                val = (x for x in list(val))          # an unsized one-shot iterable
         si.may_change = self.write_set(a)
-        si.info.update(col=i, accessor=acc, target=a.id, before=snap(a.obj), value=list(val))
+        si.info.update(col=i, accessor=acc, target=a.id, before=snap(a.obj))
+        si.info.setdefault("value", list(val) if not hasattr(val, "__next__") else [])
 
         def do():
             setattr(a.obj, acc, val)
